@@ -63,9 +63,18 @@ CHECKS = [
         "timer alignment hack and add/remove_timeseries not under contract; a bounded native run of the same contract on the real "
         "event loop is reported separately",
         "contract-based deductive verification with loop invariant over an async tick stream (z3, LIA/NIA)", "DESIGN.md 3 (C07)"),
+    chk("C08", "proof",
+        "Deductive proof over buffers of any length: _ResamplingHelper's invariant (buffer time-sorted, within maxlen) is preserved by "
+        "add_sample / _update_source_sample_period / _update_buffer_len; resample(T) hands the user's function exactly the contiguous "
+        "run of buffered samples stamped in (T - max_age*max(period, input period), T], starting at the first relevant one, nothing "
+        "relevant left out, nothing from the future, and the value is None iff nothing is relevant; _receive_samples never buffers "
+        "None/NaN samples. Found and repaired a genuine defect (fix: commit in /repo).",
+        "bisect/islice/deque(maxlen) by their documented contracts; input time-ordered (the property's quantifier) is the class "
+        "invariant; timedelta*float rounds half-even; the user's resampling function and the sample source are scripted collaborators",
+        "contract-based deductive verification with quantified array invariants (z3)", "DESIGN.md 3 (C08)"),
 ]
 
 _PENDING = "check under construction in this session (contracts not yet written); will be claimed once its obligations discharge"
 NOT_APPLICABLE = [
     {"property_id": "C12", "reason": "formula generators are graph algorithms over networkx.DiGraph (recursive dfs, successor-set classification); no contract within reach of the VC generator expresses 'the generated formula balances for every valid graph' (DESIGN.md 4)"},
-] + [{"property_id": f"C{n:02d}", "reason": _PENDING} for n in (1, 2, 5, 6, 8, 9, 10, 14, 15, 17, 18, 19, 20)]
+] + [{"property_id": f"C{n:02d}", "reason": _PENDING} for n in (1, 2, 5, 6, 9, 10, 14, 15, 17, 18, 19, 20)]
